@@ -141,14 +141,16 @@ def build_part(cid, part, workdir):
     return binpath
 
 
-def run_shard(binpath, part, tier, shard, shards, workdir, only_case=None, seed=0):
+def run_shard(binpath, part, tier, shard, shards, workdir, only_case=None, seed=0, deadline_at=0):
     out = os.path.join(workdir, "%s.%d.json" % (part["name"], shard))
     logf = os.path.join(workdir, "%s.%d.log" % (part["name"], shard))
     for f in (out, out + ".states", out + ".outcomes", out + ".nontriv"):
         if os.path.exists(f):
             os.remove(f)
     env = goenv()
-    deadline = part.get("deadline_s", {}).get(tier, 600 if tier == "quick" else 3000)
+    deadline = part.get("deadline_s", {}).get(tier, 600 if tier == "quick" else 1800)
+    if deadline_at:
+        env["VERIF_DEADLINE_AT"] = str(int(deadline_at))
     env.update({"VERIF_TIER": tier, "VERIF_SHARD": str(shard), "VERIF_SHARDS": str(shards),
                 "VERIF_OUT": out, "VERIF_SEED": str(seed), "VERIF_DEADLINE_S": str(deadline),
                 "VERIF_REPO": REPO, "VERIF_DIR": VERIF, "VERIF_WORK": workdir,
@@ -269,9 +271,11 @@ def main():
     for part in parts:
         shards = 1 if replay else part.get("shards", {}).get(tier, 1)
         log("[%s] running part %s (%d shard(s), tier %s)" % (cid, part["name"], shards, tier))
+        part_deadline = part.get("deadline_s", {}).get(tier, 600 if tier == "quick" else 1800)
+        deadline_at = 0 if replay else time.time() + part_deadline
         with ThreadPoolExecutor(max_workers=min(shards, 16)) as ex:
             futs = [ex.submit(run_shard, bins[part["name"]], part, tier, s, shards, workdir,
-                              replay["case"] if replay else None, seed) for s in range(shards)]
+                              replay["case"] if replay else None, seed, deadline_at) for s in range(shards)]
             outs = [f.result() for f in futs]
         m = {"part": part["name"], "evaluations": 0, "transitions": 0, "states": 0, "outcomes": 0,
              "distinct_nontrivial": 0, "exhaustive": True, "bounds": {}, "caps_hit": [], "samples": [],
